@@ -323,8 +323,55 @@ register(Unit("C05", "mtsp", mc.chunked(lambda ctx: mc.check_completeness_batche
               lean_modules=["Rl4co.Props.C05.Mtsp"] if _has("Rl4co/Props/C05/Mtsp.lean") else ["Rl4co.Spec.Mtsp"],
               theorems=_thms("Rl4co/Props/C05/Mtsp.lean", [
                   Theorem("Rl4co.Mtsp.run_of_feasible", "proved",
-                          "every canonical Spec-feasible solution is a mask-confined run that ends finished")]),
+                          "every canonical Spec-feasible solution is a mask-confined run that ends finished"),
+                  Theorem("Rl4co.Mtsp.canonize_spec", "proved", "every feasible solution has a canonical form with the same tours and objectives"),
+                  Theorem("Rl4co.Mtsp.opt_reachable", "proved", "∃/∀: every feasible solution is matched by a finished mask-confined episode with its objective as reward (minmax and sum), and every such episode is a feasible solution with those rewards")]),
               assumptions=[MTSP_NOTE] + ([] if _has("Rl4co/Props/C05/Mtsp.lean") else [NO_THM])))
+
+
+def mtsp_check_starts(ctx, cases_quick=24, cases_thorough=300):
+    """C12 from the mTSP side: the real `select_start_nodes` / `get_num_starts` on the real mTSP reset state against the
+    formula of `Rl4co.Mtsp.starts_admitted_iff` (`(r // B) % num_loc + 1`), for every k ≤ n (all starts must then be valid
+    actions offered by the reset mask).  k > n is the ops family's known finding and is not judged here."""
+    from rl4co.utils.ops import get_num_starts, select_start_nodes
+
+    envs = MtspEnvs()
+    for g in range(ctx.budget(cases_quick, cases_thorough)):
+        n = ctx.rng.choice(MTSP.sizes(ctx.tier))
+        B = ctx.rng.choice([1, 2, 3, 5])
+        insts = envcorr.make_batch(MTSP, ctx, n, B)
+        td = envs.reset(MTSP.to_td(insts))
+        env = envs.cur
+        k0 = int(get_num_starts(td, env.name))
+        if k0 != n:
+            ctx.violation("mtsp:starts:default-number", "get_num_starts differs from the number of customers",
+                          {"n": n, "get_num_starts": k0, "mask_width": int(td["action_mask"].shape[-1])})
+        for k in sorted({1, max(1, n // 2), n}):
+            sel = select_start_nodes(td, env, k).tolist()
+            want = [(r // B) % (n + 1) + 1 for r in range(k * B)]
+            ctx.case(("mtsp-starts", n, B, k))
+            ctx.count(f"mtsp.starts.k{'=' if k == n else '<'}n")
+            if sel != want:
+                ctx.disagreement("mtsp: select_start_nodes differs from (r // B) % num_loc + 1",
+                                 {"n": n, "B": B, "k": k, "real": sel, "model": want})
+            mask = td["action_mask"]
+            bad = [(r, a) for r, a in enumerate(sel) if not (0 <= a < mask.shape[-1] and bool(mask[r % B, a]))]
+            if bad:
+                ctx.violation("mtsp:starts:not-offered-by-reset-mask",
+                              "a forced start node (k ≤ number of customers) is not a valid action of the reset mask",
+                              {"n": n, "B": B, "k": k, "starts": sel, "bad": bad[:5]})
+        ctx.sample({"env": "mtsp", "n": n, "B": B, "get_num_starts": k0, "starts_for_k=n": select_start_nodes(td, env, n).tolist()[:12]})
+
+
+if _has("Rl4co/Props/C12/Mtsp.lean"):
+    register(Unit("C12", "mtsp", mtsp_check_starts, drivers=[], lean_modules=["Rl4co.Props.C12.Mtsp"],
+                  theorems=[Theorem("Rl4co.Mtsp.starts_admitted_iff", "proved",
+                                    "all k·B forced start nodes are valid actions offered by the mTSP reset mask iff k ≤ n (mask width = num_loc = n+1)"),
+                            Theorem("Rl4co.Mtsp.default_starts_admitted", "proved",
+                                    "the default number of starts (get_num_starts = n) is admitted"),
+                            Theorem("Rl4co.Mtsp.agents_of_generator", "proved",
+                                    "num_agents drawn by randint(min, max+1) with min ≥ 1 satisfies the hypothesis 1 ≤ m of the mTSP theorems")],
+                  assumptions=[MTSP_NOTE, "k > n is judged by the ops family (known finding mtsp-start-out-of-range-C12)"]))
 
 
 # =================================================================================================
@@ -873,6 +920,13 @@ class MdCompleteness:
             return "mdcpdp:current-depot-stuck:capacity-of-depot-0-applied"
         return "mdcpdp:mask-hides-feasible"
 
+    def extra_check(self, ctx, inst, c, f):
+        # theorem run_iff_admitsAll at run time: the Spec-side characterisation `admitsAll` (evaluated on the Spec simulation's
+        # state) agrees with the model's mask along the whole candidate (start_mode 'order' rows only: the theorem assumes it)
+        if inst.get("start", 0) == 0 and "admits" in f and f["admits"] != f.get("adm"):
+            ctx.disagreement("mdcpdp: Spec-side characterisation admitsAll differs from the model's mask",
+                             {"inst": inst, "solution": c, "admitsAll": f["admits"], "model_adm": f.get("adm")})
+
     def known_reachable(self, inst, c, f):
         # reachable although infeasible only because of the clauses the known `current_depot` defect breaks
         return f.get("vnohome") == "0" or f.get("vcap0") == "0"
@@ -893,23 +947,34 @@ def _mods(path, mod, fallback):
 
 
 register(Unit("C01", "mdcpdp", mc.chunked(md_check_feasibility), drivers=["drv_mdcpdp"],
-              lean_modules=_mods("Rl4co/Props/C01/Mdcpdp.lean", "Rl4co.Props.C01.Mdcpdp", "Rl4co.Spec.Mdcpdp"),
+              lean_modules=_mods("Rl4co/Props/C01/Mdcpdp.lean", "Rl4co.Props.C01.Mdcpdp", "Rl4co.Spec.Mdcpdp")
+              + (["Rl4co.Props.C03.MdcpdpSim"] if _has("Rl4co/Props/C03/MdcpdpSim.lean") else []),
               theorems=_thms("Rl4co/Props/C01/Mdcpdp.lean", [
                   Theorem("Rl4co.Mdcpdp.core_of_run", "partial", "every finished mask-confined episode (solo row, well-formed instance): customers exactly once, delivery after its pickup, load within [0, capacity of depot 0] after every prefix, depots entered empty"),
                   Theorem("Rl4co.Mdcpdp.feasible_of_run_counterexample", "proved", "¬ feasible_of_run_statement: the capacity of depot 0 is applied to the vehicle of depot 1"),
                   Theorem("Rl4co.Mdcpdp.feasible_of_run_uniform_counterexample", "proved", "even with equal capacities: a vehicle started at depot 1 ends its tour at node 0"),
-                  Theorem("Rl4co.Mdcpdp.feasible_of_run_random_start_counterexample", "proved", "start_mode='random': first action forced to node 0 although current_depot = r; a finished episode that the problem statement rejects")]),
+                  Theorem("Rl4co.Mdcpdp.feasible_of_run_random_start_counterexample", "proved", "start_mode='random': first action forced to node 0 although current_depot = r; a finished episode that the problem statement rejects"),
+                  Theorem("Rl4co.Mdcpdp.feasible_of_run_generator_counterexample", "proved", "bundled generator (capacity [B,1], model of the real reset with K = genCapLen G): a finished episode that the problem statement rejects"),
+                  Theorem("Rl4co.Mdcpdp.generator_shape_mismatch", "proved", "the generator's capacity width (extracted) ≠ num_depot for more than one depot")] + ([
+                  Theorem("Rl4co.Mdcpdp.feasible_of_run_single_depot", "proved", "single depot: every finished mask-confined episode satisfies the FULL problem statement (Spec.Feasible)"),
+                  Theorem("Rl4co.Mdcpdp.verdict_v0_of_run", "proved", "any number of depots: finished episodes satisfy the Spec with exactly the four clauses of v0 switched off (home, own capacity, per-vehicle lengths, last way home)")] if _has("Rl4co/Props/C03/MdcpdpSim.lean") else [])+[]),
               assumptions=[MD_NOTE] + ([] if _has("Rl4co/Props/C01/Mdcpdp.lean") else [NO_THM])))
 register(Unit("C02", "mdcpdp", mc.chunked(md_check_termination), drivers=["drv_mdcpdp"],
               lean_modules=_mods("Rl4co/Props/C02/Mdcpdp.lean", "Rl4co.Props.C02.Mdcpdp", "Rl4co.Spec.Mdcpdp"),
               theorems=_thms("Rl4co/Props/C02/Mdcpdp.lean", [
                   Theorem("Rl4co.Mdcpdp.mask_nonempty", "proved", "every reachable state offers an action (solo row, well-formed instance)"),
                   Theorem("Rl4co.Mdcpdp.done_stable", "proved", "done is absorbing"),
-                  Theorem("Rl4co.Mdcpdp.steps_le", "proved", "an unfinished mask-confined run has at most N + K − 1 steps")]),
+                  Theorem("Rl4co.Mdcpdp.steps_le", "proved", "an unfinished mask-confined run has at most N + K − 1 steps"),
+           Theorem("Rl4co.Mdcpdp.done_iff_length", "proved", "a never-padded mask-confined run is finished exactly when it has N + K − 1 steps"),
+           Theorem("Rl4co.Mdcpdp.equal_length", "proved", "rows with the same N and K finish at the same step: the bundled decoding loops never pad an MDCPDP row")]),
               assumptions=[MD_NOTE] + ([] if _has("Rl4co/Props/C02/Mdcpdp.lean") else [NO_THM])))
 register(Unit("C03", "mdcpdp", mc.chunked(md_check_reward), drivers=["drv_mdcpdp"],
-              lean_modules=_mods("Rl4co/Props/C03/Mdcpdp.lean", "Rl4co.Props.C03.Mdcpdp", "Rl4co.Spec.Mdcpdp"),
+              lean_modules=_mods("Rl4co/Props/C03/Mdcpdp.lean", "Rl4co.Props.C03.Mdcpdp", "Rl4co.Spec.Mdcpdp")
+              + (["Rl4co.Props.C03.MdcpdpSim"] if _has("Rl4co/Props/C03/MdcpdpSim.lean") else []),
               theorems=_thms("Rl4co/Props/C03/Mdcpdp.lean", [
+                  Theorem("Rl4co.Mdcpdp.reward_eq_objective_single_open", "proved", "single depot, open mode: reward = −objective of the problem as stated for minmax, minsum and lateness"),
+                  Theorem("Rl4co.Mdcpdp.reward_eq_obj_v0", "proved", "any K, open or close: all three rewards = −(objective of the Spec variant v0) — the code deviates from the Spec by the four v0 clauses only"),
+                  Theorem("Rl4co.Mdcpdp.sim_refines", "proved", "refinement: along every mask-confined run the Spec simulation (v0) never fails and carries the environment's bookkeeping"),
                   Theorem("Rl4co.Mdcpdp.reward_minsum_open", "partial", "open mode: minsum reward = −(total open-route length) for every mask-confined run"),
                   Theorem("Rl4co.Mdcpdp.reward_minmax_counterexample", "proved", "¬ reward_statement minmax (all lengths accumulate in slot 0)"),
                   Theorem("Rl4co.Mdcpdp.reward_minsum_close_counterexample", "proved", "¬ reward_statement minsum (close mode: last way back never charged)"),
@@ -927,5 +992,8 @@ register(Unit("C05", "mdcpdp", mc.chunked(md_check_completeness), drivers=["drv_
               lean_modules=_mods("Rl4co/Props/C05/Mdcpdp.lean", "Rl4co.Props.C05.Mdcpdp", "Rl4co.Spec.Mdcpdp"),
               theorems=_thms("Rl4co/Props/C05/Mdcpdp.lean", [
                   Theorem("Rl4co.Mdcpdp.run_of_feasible_counterexample", "proved", "¬ run_of_feasible_statement: return to the vehicle's own depot is never offered"),
-                  Theorem("Rl4co.Mdcpdp.run_of_feasible_capacity_counterexample", "proved", "¬ run_of_feasible_statement: a larger capacity than depot 0's cannot be used")]),
+                  Theorem("Rl4co.Mdcpdp.run_of_feasible_capacity_counterexample", "proved", "¬ run_of_feasible_statement: a larger capacity than depot 0's cannot be used"),
+           Theorem("Rl4co.Mdcpdp.mask_eq_admits", "proved", "in every reachable state the mask is `envAdmits` evaluated on the Spec simulation's state"),
+           Theorem("Rl4co.Mdcpdp.run_iff_admitsAll", "proved", "IFF: a visit list is a mask-confined run exactly when every visit is offered by envAdmits (the class the mask really admits)"),
+           Theorem("Rl4co.Mdcpdp.finished_iff", "proved", "IFF: … and it is finished exactly when every depot's vehicle was started and every customer served")]),
               assumptions=[MD_NOTE] + ([] if _has("Rl4co/Props/C05/Mdcpdp.lean") else [NO_THM])))
